@@ -92,13 +92,24 @@ def bay_groups(rng, n_cases):
         for y1, y2 in zip(cuts[:-1], cuts[1:]):
             b.add_panel(y1=y1, y2=y2)
         nblade = rng.choice([1, 2])
-        for k in range(nblade):
-            b.add_bladestiff2d(ys=0.5 + 0.25 * k, fstack=[0, 90], fplyt=0.125, flaminaprop=lp, bf=0.25 + 0.125 * k,
-                               mf=2, nf=2 + k)
-        nt = rng.choice([0, 1])
-        for k in range(nt):
-            b.add_tstiff2d(ys=1.0, bb=0.5, bf=0.25, bstack=[0, 90], bplyt=0.125, blaminaprop=lp,
-                           fstack=[90, 0], fplyt=0.125, flaminaprop=lp, mb=2, nb=2, mf=2, nf=3)
+        nt = 1 if case % 2 == 1 else rng.choice([0, 1])
+
+        def blades():
+            for k in range(nblade):
+                b.add_bladestiff2d(ys=0.5 + 0.25 * k, fstack=[0, 90], fplyt=0.125, flaminaprop=lp, bf=0.25 + 0.125 * k,
+                                   mf=2, nf=2 + k)
+
+        def tees():
+            for k in range(nt):
+                b.add_tstiff2d(ys=1.0, bb=0.5, bf=0.25, bstack=[0, 90], bplyt=0.125, blaminaprop=lp,
+                               fstack=[90, 0], fplyt=0.125, flaminaprop=lp, mb=2, nb=2, mf=2, nf=3)
+        # both orders of insertion: the amplitude layout is blades first, then T stiffeners, whatever the order of addition
+        if case % 2 == 1:
+            tees()
+            blades()
+        else:
+            blades()
+            tees()
         # descriptions from what was asked for (before any evaluation can touch the objects)
         pdskin = pd_from_panel(b.panels[0])
         pdskin["y2"] = pdskin["b"]
@@ -122,7 +133,16 @@ def bay_groups(rng, n_cases):
         xs = np.array([0., 0.5, 2., 1.25, 0.75])
         ys = np.array([0., 0.375, 1.5, 0.75, 1.125])
         record(pdskin, 0, b.uvw_skin(c, xs=xs, ys=ys), xs, ys, "skin")
-        off = skin
+        # layout rule (what calc_k0 / calc_kM place): skin, flanges of all 2-D blades, then base and flange of each T
+        offs, off = {}, skin
+        for s in b.bladestiff2ds:
+            offs[(id(s), "flange")] = off
+            off += s.flange.get_size()
+        for s in b.tstiff2ds:
+            offs[(id(s), "base")] = off
+            off += s.base.get_size()
+            offs[(id(s), "flange")] = off
+            off += s.flange.get_size()
         for si, s in enumerate(b.stiffeners):
             if s in b.bladestiff2ds:
                 regions = [("flange", s.flange)]
@@ -132,8 +152,7 @@ def bay_groups(rng, n_cases):
                 xs2 = np.array([0., 1., 2., 0.25])
                 ys2 = np.array([0., pan.b, pan.b / 2, pan.b / 4])
                 res = b.uvw_stiffener(c, si, region=region, xs=xs2, ys=ys2)
-                record(region_pds[(si, region)], off, res, xs2, ys2, "stiffener %d %s" % (si, region))
-                off += pan.get_size()
+                record(region_pds[(si, region)], offs[(id(s), region)], res, xs2, ys2, "stiffener %d %s" % (si, region))
     return out
 
 
